@@ -9,7 +9,7 @@ Definition enc_amd64 (oc:bool) : encoder := {|
   e_patch_addr := fun f => f;
   e_tramp := fun jit kd => match kd with KExec fake => enc_of_opt (branch oc jit fake) | KBool v => EBytes (bool_stub v) end;
   e_entry := fun func jit _ => enc_of_opt (branch oc func jit) |}.
-Definition cfg_amd64 (oc:bool) : cfg := {| c_enc := enc_amd64 oc; c_allp := true; c_alloc := alloc_jit false |}.
+Definition cfg_amd64 (oc:bool) : cfg := {| c_enc := enc_amd64 oc; c_allp := true; c_alloc := alloc_jit true |}.
 Definition cfg_amd64_sim (oc allp:bool) : cfg := {| c_enc := enc_amd64 oc; c_allp := allp; c_alloc := alloc_given |}.
 
 (* shape of a successful x86-64 installation *)
